@@ -24,7 +24,21 @@ Three families of cases (field 'fam'):
          credentials and a scripted application verdict (235 / 535 / 454).  Oracle table in judge_auth().
  client  (e) the harness server answers STARTTLS with `220 ready` + injected reply bytes in ONE clear
          segment, handshakes, and answers inside TLS with recognisable texts; every Reply the client
-         returns after starttls() must be the one sent inside TLS.
+         returns after starttls() must be the one sent inside TLS, and the client's extension set after the
+         EHLO inside TLS is exactly what that EHLO reply listed.
+ relay   (e) the same hostile server against the real StaticSmtpRelay / StaticLmtpRelay (SmtpRelayClient.
+         _handshake: EHLO, STARTTLS, EHLO|HELO fallback, AUTH through slimta.smtp.auth.AuthSession.client_attempt,
+         then one delivery).  The clear-text EHLO reply and the EHLO reply inside TLS list DIFFERENT extensions
+         (AUTH mechanisms, SIZE, PIPELINING).  Oracle: first command inside TLS is EHLO/LHLO, the delivery outcome
+         is the one answered inside TLS, nothing injected is reported, and everything the client does after
+         the handshake that depends on an extension (AUTH and its mechanism, MAIL SIZE=/AUTH= parameters) uses
+         only what the server offered inside TLS; the AUTH exchange decodes to the configured credentials.
+
+Audit additions (round 5): the STARTTLS line + payload cut into segments at generated offsets (inside the
+verb, between CR and LF, every byte), the whole session prefix + STARTTLS + payload in ONE segment (also behind
+the end of a message body), other spellings of the STARTTLS line; mechanisms XOAUTH2 and EXTERNAL, a server
+without any TLS context, auth=True (pysasl defaults), mixed-case / raw 8-bit AUTH lines, an application AUTH
+handler that raises, and the identity/protocol the edge writes into the envelope of the next message.
 
 Credential identity is read through pysasl's public API only: creds.authcid, creds.authzid and
 creds.verify(ClearIdentity(authcid, secret, prepare=noprep)).
@@ -39,6 +53,7 @@ from gevent import socket as gsocket
 from gevent import ssl as gssl
 
 from pysasl.identity import ClearIdentity
+from pysasl.creds.external import ExternalVerificationRequired
 from pysasl.prep import noprep
 
 from vf import tls as vtls
@@ -47,6 +62,9 @@ from slimta.smtp.client import Client
 from slimta.smtp import ConnectionLost
 import slimta.edge.smtp as edge_smtp
 from slimta.edge.smtp import SmtpEdge, SmtpSession, SmtpValidators
+from slimta.envelope import Envelope
+from slimta.relay import RelayError
+from slimta.relay.smtp.static import StaticSmtpRelay, StaticLmtpRelay
 
 PROPERTY = 'C08'
 LEVEL = 'exploration'
@@ -54,38 +72,59 @@ LEVEL_TEXT = ('Real Server / SmtpEdge+SmtpSession / Client over gevent socketpai
               'directions. Designed grid: (session prefix x injected plaintext shape x {pipelined behind STARTTLS, '
               'after the 220, before an immediate-TLS handshake} x TLS script {A known commands, B state probe}), '
               '(SASL mechanism x AUTH line/response shape x channel {clear, STARTTLS, immediate TLS} x gate x '
-              'application verdict x generated Unicode credentials), (client x injected reply shape); plus seeded '
-              'random draws over the same axes. Held = held on the sessions reported.')
+              'application verdict x generated Unicode credentials), (client x injected reply shape), (StaticSmtpRelay / '
+              'StaticLmtpRelay against a hostile scripted TLS server x injected reply shape x timing x extension list '
+              'offered inside TLS x credentials); plus seeded random draws over the same axes. Held = held on the '
+              'sessions reported.')
 LEVEL_NOTE = ('Trusted: the harness wire peer (~80 lines: send, read one reply, handshake), the recording handler '
               'object, gevent ssl, the per-run certificate; the expected callback list of the TLS scripts is fixed '
               'by the harness because the handlers never alter a reply (except the scripted AUTH verdict).')
 TECHNIQUE = 'runtime monitoring: sentinel injection across a real TLS handshake + gating/credential oracle table'
 RULE = ('tls case = (prefix in {none, EHLO, EHLO+MAIL, EHLO+MAIL+RCPT, EHLO+AUTH-ok}) x (payload in {none, ehlo, mail, '
         'rcpt, noop, several, partial line, DATA+body, 4 KB junk filling the recv, junk larger than one recv}) x '
-        '(mode/timing in {starttls/pipelined, starttls/after-220, immediate/before-handshake}) x script {A, B}; '
-        'auth case = (mechanism in {PLAIN, LOGIN, CRAM-MD5, none}) x (shape: initial response, challenge/response, '
-        'lower-case, cancel, bad base64 x4, "=", empty response, bare AUTH, unknown mechanism, extra arguments, '
-        'no-NUL / non-UTF-8 payload ...) x channel x gate {none, before-ehlo, after-success, in-transaction, '
+        '(mode/timing in {starttls/pipelined, starttls/after-220, starttls/whole session in one segment, '
+        'immediate/before-handshake}) x script {A, B} [+ prefixes {completed transaction, MAIL+RSET, refused AUTH, '
+        'HELO}, segmentation of STARTTLS+payload {inside the verb, CR|LF, line+1 byte, bytewise, 2 / 5 random cuts}, '
+        'spelling of the STARTTLS line {lower, mixed + trailing blanks, bare LF, with an argument (refused)}, payload '
+        'AUTH EXTERNAL]; '
+        'auth case = (mechanism in {PLAIN, LOGIN, CRAM-MD5, XOAUTH2, EXTERNAL, none}) x (shape: initial response, '
+        'challenge/response, lower-case, mixed-case, cancel, bad base64 x4, raw 8-bit, "=", empty response, bare AUTH, '
+        'unknown / 8-bit mechanism, extra arguments, no-NUL / non-UTF-8 / non-Bearer payload ...) x channel {clear with '
+        'STARTTLS offered, clear on a server without TLS context, after STARTTLS, immediate TLS} x server auth '
+        'configuration {explicit list of all five, auth=True defaults} x gate {none, before-ehlo, after-success, '
+        'in-transaction, '
         'in-transaction-rcpt, retry-535, retry-454, history-{ehlo, helo, rset, transaction, starttls} x first '
-        'mechanism x second identity {same, different}} x verdict {235, 535, 454} x target {Server+probe, '
-        'SmtpEdge+SmtpSession} x credentials from a seeded generator (ASCII, BMP, astral, combining marks, '
-        'SASLprep-sensitive, spaces, long; authzid present/absent; NUL-free); client case = injected reply shape. '
-        'non-trivial = tls/client case with a non-empty injected payload or script B with a non-empty prefix, or an '
-        'auth case other than (initial|challenge, verdict 235, no gate, encrypted channel); distinct by (prefix, '
-        'payload, mode, timing, script) / (mechanism, shape, channel, gate, verdict, target, credential kind) / '
-        '(client, payload)')
+        'mechanism x second identity {same, different}} x verdict {235, 535, 454, handler raises} x target '
+        '{Server+probe, SmtpEdge+SmtpSession (+ envelope.client of the next message)} x credentials from a seeded generator (ASCII, BMP, astral, combining marks, '
+        'SASLprep-sensitive, spaces, long; authzid present/absent; NUL-free); client case = injected reply shape x '
+        'timing; relay case = {SMTP, LMTP relay} x injected reply shape x timing x EHLO reply inside TLS {same AUTH '
+        'list as in clear, other mechanism, other order, no AUTH, 500 + HELO fallback} x credentials {none, default '
+        'mechanism, forced PLAIN / LOGIN} (clear text always offers AUTH PLAIN LOGIN, SIZE, PIPELINING), plus '
+        'tls_immediately relays with the injected bytes sent before the handshake. '
+        'non-trivial = tls/client/relay case with a non-empty injected payload (or a differing TLS extension list) or '
+        'script B with a non-empty prefix, or an auth case other than (initial|challenge, verdict 235, no gate, '
+        'encrypted channel); distinct by (prefix, payload, mode, timing, script, segmentation, spelling) / (mechanism, '
+        'shape, channel, gate, verdict, target, credential kind, auth configuration) / (client, payload, timing) / '
+        '(relay kind, TLS extension list, credentials, forced mechanism, payload, timing)')
 ASSUMPTIONS = ['a single sendall() of <= 4096 bytes on an AF_UNIX socketpair is handed to the peer by one recv(4096) '
                '(the pipelined payload therefore reaches IO.recv_buffer together with the STARTTLS line)',
                'the recording handlers never change a reply except the scripted AUTH verdict, so the callbacks a '
                'known command list causes are known in advance',
                'TLS: self-signed certificate, verification disabled on the connecting side',
-               'pysasl 1.2 public API (authcid, authzid, verify(ClearIdentity(.., prepare=noprep))) reports the '
-               'credentials the mechanism decoded']
+               'pysasl 1.2 public API (authcid, authzid, verify(ClearIdentity(.., prepare=noprep)), and for '
+               'XOAUTH2/EXTERNAL the token of ExternalVerificationRequired) reports the credentials the mechanism decoded',
+               'relay family: the hostile server\'s own PLAIN/LOGIN/CRAM-MD5 decoding (~25 lines) is trusted; CRAM-MD5 '
+               'credentials are ASCII there because pysasl\'s CRAM-MD5 client applies SASLprep']
 REQUIRED_HITS = ['tls-reply-count-compared', 'tls-first-reply-checked', 'encrypted-callback-trace-compared',
                  'sentinel-callbacks-checked', 'post-handshake-state-probed', 'handshake-refused-plaintext',
                  'auth-clear-session-gate-checked', 'auth-sequence-gate-checked', 'auth-malformed-survival-checked',
                  'auth-credentials-compared', 'authed-flag-checked', 'edge-session-auth-checked',
-                 'auth-retry-checked', 'auth-after-success-history-checked', 'client-tls-replies-compared']
+                 'auth-retry-checked', 'auth-after-success-history-checked', 'client-tls-replies-compared',
+                 # audit round 5
+                 'starttls-line-segmented', 'whole-session-in-one-segment', 'starttls-offer-after-handshake-checked',
+                 'server-without-tls-context', 'auth-validator-raises-checked', 'edge-envelope-identity-checked',
+                 'client-post-tls-extensions-compared', 'relay-tls-session-compared',
+                 'relay-post-tls-extension-use-checked', 'relay-auth-credentials-compared']
 SHARDS = {'quick': 8, 'thorough': 16}
 BUDGET = {'quick': 45, 'thorough': 700}
 EXHAUSTIVE = {'quick': False, 'thorough': False}
@@ -110,6 +149,9 @@ M_AUTH_EARLY = 'auth/authenticated-without-235'
 M_AUTH_CREDS = 'auth/credentials-altered'
 M_AUTH_RETRY = 'auth/retry-after-failure-refused'
 M_CLI_BUF = 'client/recv-buffer-survives-starttls'
+M_CLI_EXT = 'client/pre-tls-extensions-used-after-starttls'
+M_CLI_CREDS = 'client/auth-credentials-altered'
+M_CLI_NOEHLO = 'client/no-new-ehlo-after-starttls'
 
 SENTINELS = ('injected.test', 'inj@x', 'XINJ')
 
@@ -275,7 +317,13 @@ class CredCheck(object):
         try:
             rec['authcid'] = creds.authcid
             rec['authzid'] = creds.authzid
-            rec['verify_supplied'] = bool(creds.verify(ClearIdentity(self.cid, self.secret, prepare=noprep)))
+            try:
+                rec['verify_supplied'] = bool(creds.verify(ClearIdentity(self.cid, self.secret, prepare=noprep)))
+            except ExternalVerificationRequired as ext:
+                # XOAUTH2 / EXTERNAL: pysasl hands the bearer token (or None) to the application this way
+                rec['external'] = True
+                rec['token'] = ext.token
+                return rec
             rec['verify_secret_only'] = bool(creds.verify(ClearIdentity(creds.authcid, self.secret,
                                                                         prepare=noprep)))
             rec['verify_wrong_secret'] = bool(creds.verify(ClearIdentity(creds.authcid, self.secret + '\x01w',
@@ -285,8 +333,16 @@ class CredCheck(object):
         return rec
 
 
-def apply_verdict(reply, verdicts):
+class ValidatorDown(Exception):
+    """Raised by the scripted application AUTH handler (verdict 'raise')."""
+
+
+def apply_verdict(reply, verdicts, entry=None):
     v = verdicts.pop(0) if verdicts else '535'
+    if entry is not None:
+        entry['verdict'] = v
+    if v == 'raise':
+        raise ValidatorDown('credentials backend unreachable')
     if v == '535':
         reply.code, reply.message = '535', '5.7.8 Authentication credentials invalid'
     elif v == '454':
@@ -334,7 +390,7 @@ class Probe(object):
         e = self._rec('AUTH', reply)
         if self.credcheck is not None:
             e['creds'] = self.credcheck.read(creds)
-        e['verdict'] = apply_verdict(reply, self.verdicts)
+        apply_verdict(reply, self.verdicts, e)
 
     def MAIL(self, reply, address, params):
         self._rec('MAIL', reply, address, params)
@@ -371,7 +427,11 @@ class Probe(object):
 class StubQueue(object):
     """Accepts every envelope (only needed so that a completed transaction on the edge target gets its 250)."""
 
+    def __init__(self):
+        self.clients = []
+
     def enqueue(self, envelope):
+        self.clients.append(dict(envelope.client))
         return [(envelope, 'stub-id')]
 
 
@@ -391,8 +451,8 @@ def make_validators(box):
                  'security': self.session.security}
             if box['credcheck'] is not None:
                 e['creds'] = box['credcheck'].read(creds)
-            e['verdict'] = apply_verdict(reply, box['verdicts'])
             box['trace'].append(e)
+            apply_verdict(reply, box['verdicts'], e)
 
         def handle_mail(self, reply, sender, params):
             box['trace'].append({'cb': 'MAIL', 'args': [sender]})
@@ -410,9 +470,11 @@ class ServerSession(object):
         self.srv = None
         self.session = None
         imm = (mode == 'immediate')
+        ctx = None if mode == 'notls' else sctx()          # 'notls': a server that cannot do TLS at all
+        self.queue = StubQueue()
         if target == 'server':
             self.probe = Probe(verdicts, credcheck)
-            self.srv = Server(a, self.probe, address=('127.0.0.1', 4321), auth=auth, context=sctx(),
+            self.srv = Server(a, self.probe, address=('127.0.0.1', 4321), auth=auth, context=ctx,
                               tls_immediately=imm)
             self.probe.srv = self.srv
             self.trace = self.probe.trace
@@ -429,7 +491,7 @@ class ServerSession(object):
             self.box = {'trace': [], 'verdicts': list(verdicts), 'credcheck': credcheck}
             self.trace = self.box['trace']
             del RecSession.instances[:]
-            edge = SmtpEdge(None, StubQueue(), validator_class=make_validators(self.box), auth=auth, context=sctx(),
+            edge = SmtpEdge(None, self.queue, validator_class=make_validators(self.box), auth=auth, context=ctx,
                             tls_immediately=imm, session_class=RecSession)
 
             def body():
@@ -468,8 +530,16 @@ class ServerSession(object):
 # ---------------------------------------------------------------- workload: STARTTLS boundary
 
 PREFIXES = ['none', 'ehlo', 'ehlo-mail', 'ehlo-mail-rcpt', 'ehlo-auth']
+# further prefixes (audit): a completed transaction, RSET after MAIL, a refused AUTH, HELO (after which the
+# server no longer knows STARTTLS: refused, nothing to cross)
+PREFIXES2 = ['ehlo-txn', 'ehlo-mail-rset', 'ehlo-auth-refused', 'helo']
+# spellings of the STARTTLS line itself (the payload follows the line terminator)
+VERBS = [b'STARTTLS\r\n', b'starttls\r\n', b'StartTLS  \r\n', b'STARTTLS\n']
+# how 'STARTTLS<eol>' + payload is cut into separately sent segments (timing 'pipelined' only)
+SEGS = ['mid-verb', 'cr-lf', 'after-eol-1', 'bytewise', 'random-2', 'random-5']
+WHOLE_PREFIXES = ['ehlo', 'ehlo-mail', 'ehlo-mail-rcpt', 'ehlo-txn', 'ehlo-mail-rset']
 PAYLOADS = ['ehlo', 'mail', 'rcpt', 'noop', 'several', 'partial', 'data', 'junk4k', 'junk-over-recv']
-AUTH_MECHS = [b'PLAIN', b'LOGIN', b'CRAM-MD5']
+AUTH_MECHS = [b'PLAIN', b'LOGIN', b'CRAM-MD5', b'XOAUTH2', b'EXTERNAL']    # every mechanism pysasl 1.2 ships
 
 SCRIPT_A = [b'EHLO tls.test', b'NOOP', b'MAIL FROM:<tls@x>', b'RSET', b'QUIT']
 EXPECT_A = ['EHLO:tls.test', 'NOOP', 'MAIL:tls@x', 'RSET', 'QUIT', 'CLOSE']
@@ -512,6 +582,9 @@ def make_payload(kind, rs):
         return b'NOOP injected.test'
     if kind == 'data':
         return b'DATA\r\nSubject: inj@x\r\n\r\ninjected.test body\r\n.\r\n'
+    if kind == 'auth':
+        # a non-plaintext mechanism (allowed in clear): must not authenticate the TLS session either
+        return b'AUTH EXTERNAL ' + b64(b'injected.test') + b'\r\n'
     if kind == 'junk4k':
         return junk(4096 - len(b'STARTTLS\r\n'), rs)       # fills the server's recv(4096) exactly
     if kind == 'junk-over-recv':
@@ -538,6 +611,39 @@ def tls_cases():
     for script in ('A', 'B'):
         yield {'fam': 'tls', 'mode': 'immediate', 'timing': 'before-handshake', 'prefix': 'none',
                'payload': 'none', 'script': script}
+    # ---- audit strata
+    n = 0
+    for prefix in PREFIXES2:
+        for script in ('A', 'B'):
+            yield {'fam': 'tls', 'mode': 'starttls', 'timing': 'pipelined', 'prefix': prefix, 'payload': 'none',
+                   'script': script}
+            yield {'fam': 'tls', 'mode': 'starttls', 'timing': 'pipelined', 'prefix': prefix, 'payload': 'several',
+                   'script': script}
+    for seg in SEGS:
+        for payload in ('noop', 'several', 'partial', 'data', 'auth', 'junk4k'):
+            if seg == 'bytewise' and payload == 'junk4k':
+                continue
+            n += 1
+            yield {'fam': 'tls', 'mode': 'starttls', 'timing': 'pipelined', 'prefix': PREFIXES[1 + n % 4],
+                   'payload': payload, 'script': 'AB'[n % 2], 'seg': seg}
+    for verb in VERBS[1:]:
+        for payload in ('noop', 'several', 'partial'):
+            n += 1
+            yield {'fam': 'tls', 'mode': 'starttls', 'timing': 'pipelined', 'prefix': PREFIXES[1 + n % 4],
+                   'payload': payload, 'script': 'AB'[n % 2], 'verb': verb}
+    for prefix in WHOLE_PREFIXES:
+        for payload in ('none', 'noop', 'several', 'rcpt', 'data', 'auth'):
+            for script in ('A', 'B'):
+                yield {'fam': 'tls', 'mode': 'starttls', 'timing': 'whole-session', 'prefix': prefix,
+                       'payload': payload, 'script': script}
+    # STARTTLS with an argument is refused (501): no handshake, the payload is ordinary clear-text input
+    for payload in ('none', 'noop', 'several'):
+        yield {'fam': 'tls', 'mode': 'starttls', 'timing': 'pipelined', 'prefix': 'ehlo-mail', 'payload': payload,
+               'script': 'A', 'verb': b'STARTTLS now\r\n'}
+    yield {'fam': 'tls', 'mode': 'starttls', 'timing': 'pipelined', 'prefix': 'ehlo-auth', 'payload': 'auth',
+           'script': 'A'}
+    yield {'fam': 'tls', 'mode': 'starttls', 'timing': 'pipelined', 'prefix': 'ehlo', 'payload': 'auth',
+           'script': 'B'}
     for payload in PAYLOADS:
         yield {'fam': 'tls', 'mode': 'immediate', 'timing': 'before-handshake', 'prefix': 'none',
                'payload': payload, 'script': 'A'}
@@ -591,24 +697,36 @@ def gen_cred(rnd, kind=None, zid=None):
 
 # shape -> class: 'ok' well-formed (the application is asked), 'bad' malformed (error reply, no callback),
 # 'soft' (accepted-as-empty or error, either is fine; must not end the session)
-OK_SHAPES = {'PLAIN': ['initial', 'challenge', 'lower-case'],
-             'LOGIN': ['initial', 'challenge', 'lower-case'],
-             'CRAM-MD5': ['challenge', 'lower-case']}
+OK_SHAPES = {'PLAIN': ['initial', 'challenge', 'lower-case', 'mixed-case'],
+             'LOGIN': ['initial', 'challenge', 'lower-case', 'mixed-case'],
+             'CRAM-MD5': ['challenge', 'lower-case'],
+             'XOAUTH2': ['initial', 'challenge', 'lower-case', 'mixed-case'],
+             'EXTERNAL': ['initial', 'challenge', 'lower-case']}
 BAD_SHAPES = {'PLAIN': ['cancel', 'cancel-initial', 'bad-b64-length', 'bad-b64-length-resp', 'bad-b64-illegal-only',
                         'bad-b64-embedded', 'bad-b64-embedded-resp', 'equals', 'empty-response', 'extra-args',
-                        'no-nul', 'bad-utf8', 'two-b64-joined'],
+                        'no-nul', 'bad-utf8', 'two-b64-joined', 'raw-8bit-arg'],
               'LOGIN': ['cancel', 'cancel-second', 'cancel-initial', 'bad-b64-length', 'bad-b64-length-resp',
-                        'bad-b64-embedded', 'bad-b64-embedded-resp', 'extra-args', 'bad-utf8'],
+                        'bad-b64-embedded', 'bad-b64-embedded-resp', 'extra-args', 'bad-utf8', 'raw-8bit-resp'],
+              'XOAUTH2': ['cancel', 'cancel-initial', 'bad-b64-length', 'bad-b64-embedded', 'bad-b64-embedded-resp',
+                          'extra-args', 'no-bearer', 'bad-utf8', 'empty-response', 'equals'],
+              'EXTERNAL': ['cancel', 'cancel-initial', 'bad-b64-length', 'bad-b64-embedded', 'extra-args',
+                           'bad-utf8'],
               'CRAM-MD5': ['cancel', 'bad-b64-length-resp', 'bad-b64-embedded-resp', 'empty-response', 'no-space',
                            'bad-utf8', 'extra-args'],
-              '-': ['bare', 'bare-space', 'unknown-mech', 'unknown-mech-arg', 'mech-junk', 'mech-prefix']}
-SOFT_SHAPES = {'LOGIN': ['equals', 'empty-response', 'bad-b64-illegal-only'], 'CRAM-MD5': ['initial-unsolicited']}
-B64_SHAPES = ('bad-b64-illegal-only', 'bad-b64-embedded', 'bad-b64-embedded-resp', 'extra-args', 'two-b64-joined')
-CHANNELS = ['clear', 'starttls', 'immediate']
+              '-': ['bare', 'bare-space', 'unknown-mech', 'unknown-mech-arg', 'mech-junk', 'mech-prefix',
+                    'mech-8bit']}
+SOFT_SHAPES = {'LOGIN': ['equals', 'empty-response', 'bad-b64-illegal-only'], 'CRAM-MD5': ['initial-unsolicited'],
+               'EXTERNAL': ['equals', 'empty-response']}
+B64_SHAPES = ('bad-b64-illegal-only', 'bad-b64-embedded', 'bad-b64-embedded-resp', 'extra-args', 'two-b64-joined',
+              'raw-8bit-arg', 'raw-8bit-resp')
+# 'clear-notls': a server configured without any TLS context (no STARTTLS offered at all)
+CHANNELS = ['clear', 'starttls', 'immediate', 'clear-notls']
+CLEAR = ('clear', 'clear-notls')
+MECHS = ['PLAIN', 'LOGIN', 'CRAM-MD5', 'XOAUTH2', 'EXTERNAL']
 GATES = ['before-ehlo', 'after-success', 'in-transaction', 'in-transaction-rcpt', 'retry-535', 'retry-454']
 # multi-step histories after a successful AUTH, each followed by another AUTH that must still be refused
 HISTORY_STEPS = {'ehlo': 'EHLO', 'helo': 'HELO', 'rset': 'RSET', 'transaction': 'transaction', 'starttls': 'STARTTLS'}
-PLAINTEXT_MECHS = ('PLAIN', 'LOGIN')
+PLAINTEXT_MECHS = ('PLAIN', 'LOGIN', 'XOAUTH2')       # the secret / bearer token itself goes over the wire
 
 
 def shape_class(mech, shape):
@@ -642,11 +760,44 @@ def auth_script(mech, shape, cred):
     if mech == '-':
         return {'bare': (b'AUTH', []), 'bare-space': (b'AUTH   ', []),
                 'unknown-mech': (b'AUTH XUNKNOWN', [b'*']), 'unknown-mech-arg': (b'AUTH XUNKNOWN ' + plain, [b'*']),
-                'mech-junk': (b'AUTH @@@ ' + plain, [b'*']), 'mech-prefix': (b'AUTH PLAIN-X ' + plain, [b'*'])}[shape]
+                'mech-junk': (b'AUTH @@@ ' + plain, [b'*']), 'mech-prefix': (b'AUTH PLAIN-X ' + plain, [b'*']),
+                'mech-8bit': (b'AUTH PL\xc3\x84IN ' + plain, [b'*'])}[shape]
+    if mech == 'XOAUTH2':
+        xo = b64(b'user=' + cid + b'\x01auth=Bearer ' + sec + b'\x01\x01')
+        t = {'initial': (b'AUTH XOAUTH2 ' + xo, []),
+             'challenge': (b'AUTH XOAUTH2', [xo]),
+             'lower-case': (b'auth xoauth2 ' + xo, []),
+             'mixed-case': (b'Auth XOauth2 ' + xo, []),
+             'cancel': (b'AUTH XOAUTH2', [b'*']),
+             'cancel-initial': (b'AUTH XOAUTH2 *', []),
+             'bad-b64-length': (b'AUTH XOAUTH2 ' + _break_len(xo), []),
+             'bad-b64-embedded': (b'AUTH XOAUTH2 ' + _embed(xo), []),
+             'bad-b64-embedded-resp': (b'AUTH XOAUTH2', [_embed(xo)]),
+             'extra-args': (b'AUTH XOAUTH2 ' + xo + b' extra', []),
+             'no-bearer': (b'AUTH XOAUTH2 ' + b64(b'user=' + cid + b'\x01auth=Basic ' + sec + b'\x01\x01'), []),
+             'bad-utf8': (b'AUTH XOAUTH2 ' + b64(b'user=\xff\xfeu\x01auth=Bearer \xc3\x28\x01\x01'), []),
+             'empty-response': (b'AUTH XOAUTH2', [b'']),
+             'equals': (b'AUTH XOAUTH2 =', [])}
+        return t[shape]
+    if mech == 'EXTERNAL':
+        t = {'initial': (b'AUTH EXTERNAL ' + bcid, []),
+             'challenge': (b'AUTH EXTERNAL', [bcid]),
+             'lower-case': (b'auth external ' + bcid, []),
+             'cancel': (b'AUTH EXTERNAL', [b'*']),
+             'cancel-initial': (b'AUTH EXTERNAL *', []),
+             'bad-b64-length': (b'AUTH EXTERNAL ' + _break_len(b64(cid + b'pad')), []),
+             'bad-b64-embedded': (b'AUTH EXTERNAL ' + _embed(b64(cid + b'-padding')), []),
+             'extra-args': (b'AUTH EXTERNAL ' + bcid + b' extra', []),
+             'bad-utf8': (b'AUTH EXTERNAL ' + b64(b'\xff\xfeuser\xc3\x28'), []),
+             'equals': (b'AUTH EXTERNAL =', []),
+             'empty-response': (b'AUTH EXTERNAL', [b''])}
+        return t[shape]
     if mech == 'PLAIN':
         t = {'initial': (b'AUTH PLAIN ' + plain, []),
              'challenge': (b'AUTH PLAIN', [plain]),
              'lower-case': (b'auth plain ' + plain, []),
+             'mixed-case': (b'Auth Plain ' + plain, []),
+             'raw-8bit-arg': (b'AUTH PLAIN \xff\xfe\x00\xe9' + plain, []),
              'cancel': (b'AUTH PLAIN', [b'*']),
              'cancel-initial': (b'AUTH PLAIN *', []),
              'bad-b64-length': (b'AUTH PLAIN ' + _break_len(plain), []),
@@ -664,6 +815,8 @@ def auth_script(mech, shape, cred):
         t = {'initial': (b'AUTH LOGIN ' + bcid, [bsec]),
              'challenge': (b'AUTH LOGIN', [bcid, bsec]),
              'lower-case': (b'auth login', [bcid, bsec]),
+             'mixed-case': (b'auTH LoGiN ' + bcid, [bsec]),
+             'raw-8bit-resp': (b'AUTH LOGIN', [bcid, b'\xff\xfe\x00\xe9' + bsec]),
              'cancel': (b'AUTH LOGIN', [b'*']),
              'cancel-second': (b'AUTH LOGIN', [bcid, b'*']),
              'cancel-initial': (b'AUTH LOGIN *', [b'*']),
@@ -694,49 +847,62 @@ def good_shape(mech):
     return 'challenge'
 
 
+def is_clear(channel):
+    return channel in CLEAR
+
+
 def auth_grid(rnd, draws):
-    def case(mech, shape, channel, gate='none', verdict='235', target='server', kind=None):
-        return {'fam': 'auth', 'mech': mech, 'shape': shape, 'channel': channel, 'gate': gate, 'verdict': verdict,
-                'target': target, 'cred': gen_cred(rnd, kind)}
+    def case(mech, shape, channel, gate='none', verdict='235', target='server', kind=None, authcfg=None):
+        c = {'fam': 'auth', 'mech': mech, 'shape': shape, 'channel': channel, 'gate': gate, 'verdict': verdict,
+             'target': target, 'cred': gen_cred(rnd, kind)}
+        if authcfg:
+            c['authcfg'] = authcfg
+        return c
     for _ in range(draws):
         for channel in CHANNELS:
-            for mech in ('PLAIN', 'LOGIN', 'CRAM-MD5'):
+            for mech in MECHS:
                 for shape in OK_SHAPES[mech]:
                     for verdict in ('235', '535', '454'):
                         for target in ('server', 'edge'):
-                            if shape == 'lower-case' and (target == 'edge' or verdict == '454'):
+                            if shape in ('lower-case', 'mixed-case') and (target == 'edge' or verdict == '454'):
                                 continue
                             yield case(mech, shape, channel, verdict=verdict, target=target)
                 for shape in BAD_SHAPES[mech] + SOFT_SHAPES.get(mech, []):
                     yield case(mech, shape, channel)
+                # the application's AUTH handler raises instead of answering
+                for target in ('server', 'edge'):
+                    yield case(mech, OK_SHAPES[mech][0], channel, verdict='raise', target=target)
             for shape in BAD_SHAPES['-']:
                 yield case('-', shape, channel)
             yield case('-', 'bare', channel, target='edge')
-            for mech in ('PLAIN', 'LOGIN', 'CRAM-MD5'):
-                if channel == 'clear' and mech in PLAINTEXT_MECHS:
+            for mech in MECHS:
+                if is_clear(channel) and mech in PLAINTEXT_MECHS:
                     continue          # on a clear session these must be refused whatever the gate
                 for gate in GATES:
                     for target in ('server', 'edge'):
                         if target == 'edge' and gate in ('in-transaction-rcpt', 'retry-454'):
                             continue
                         yield case(mech, OK_SHAPES[mech][0], channel, gate=gate, target=target)
+            # auth=True: the mechanisms pysasl enables by default; the others are then not offered
+            for n, mech in enumerate(MECHS):
+                yield case(mech, OK_SHAPES[mech][0], channel, authcfg='defaults', target=('server', 'edge')[n % 2])
         # histories after a successful AUTH: <step>, then another AUTH (same / different identity)
         n = 0
         for channel in CHANNELS:
             for step in sorted(HISTORY_STEPS):
                 if step == 'starttls' and channel != 'clear':
-                    continue          # an upgrade is only possible from a clear session
-                for mech in ('PLAIN', 'LOGIN', 'CRAM-MD5'):
-                    if channel == 'clear' and step != 'starttls' and mech in PLAINTEXT_MECHS:
-                        continue      # still clear: PLAIN/LOGIN would be refused for that reason alone
+                    continue          # an upgrade is only possible from a clear session that offers it
+                for mech in MECHS:
+                    if is_clear(channel) and step != 'starttls' and mech in PLAINTEXT_MECHS:
+                        continue      # still clear: PLAIN/LOGIN/XOAUTH2 would be refused for that reason alone
                     for second in ('same', 'different'):
                         for target in ('server', 'edge'):
                             n += 1
-                            first = 'CRAM-MD5' if channel == 'clear' else ('PLAIN', 'LOGIN', 'CRAM-MD5')[n % 3]
+                            first = ('CRAM-MD5', 'EXTERNAL')[n % 2] if is_clear(channel) else MECHS[n % 5]
                             yield history_case(rnd, mech, channel, step, first, second, target)
         # every credential kind once through each mechanism on an encrypted channel
         for kind in CRED_KINDS:
-            for mech in ('PLAIN', 'LOGIN', 'CRAM-MD5'):
+            for mech in MECHS:
                 yield case(mech, OK_SHAPES[mech][0], 'immediate', kind=kind,
                            target='edge' if kind in ('bmp', 'saslprep') else 'server')
 
@@ -752,11 +918,11 @@ def random_history(rnd):
     channel = rnd.choice(CHANNELS)
     step = rnd.choice(sorted(HISTORY_STEPS) if channel == 'clear' else
                       [k for k in sorted(HISTORY_STEPS) if k != 'starttls'])
-    if channel == 'clear' and step != 'starttls':
-        mech = 'CRAM-MD5'
+    if is_clear(channel) and step != 'starttls':
+        mech = rnd.choice(['CRAM-MD5', 'EXTERNAL'])
     else:
-        mech = rnd.choice(['PLAIN', 'LOGIN', 'CRAM-MD5'])
-    first = 'CRAM-MD5' if channel == 'clear' else rnd.choice(['PLAIN', 'LOGIN', 'CRAM-MD5'])
+        mech = rnd.choice(MECHS)
+    first = rnd.choice(['CRAM-MD5', 'EXTERNAL']) if is_clear(channel) else rnd.choice(MECHS)
     c = history_case(rnd, mech, channel, step, first, rnd.choice(['same', 'different']),
                      rnd.choice(['server', 'edge']))
     c['shape'] = rnd.choice(OK_SHAPES[mech])
@@ -766,7 +932,7 @@ def random_history(rnd):
 def random_auth(rnd):
     if rnd.random() < 0.15:
         return random_history(rnd)
-    mech = rnd.choice(['PLAIN', 'PLAIN', 'LOGIN', 'LOGIN', 'CRAM-MD5', '-'])
+    mech = rnd.choice(['PLAIN', 'PLAIN', 'LOGIN', 'LOGIN', 'CRAM-MD5', 'XOAUTH2', 'EXTERNAL', '-'])
     if mech == '-':
         shape = rnd.choice(BAD_SHAPES['-'])
     else:
@@ -774,12 +940,18 @@ def random_auth(rnd):
         shape = rnd.choice(pool)
     channel = rnd.choice(CHANNELS)
     gate = 'none'
-    if shape_class(mech, shape) == 'ok' and rnd.random() < 0.35 and not (channel == 'clear' and
+    if shape_class(mech, shape) == 'ok' and rnd.random() < 0.35 and not (is_clear(channel) and
                                                                         mech in PLAINTEXT_MECHS):
         gate = rnd.choice(GATES)
-    return {'fam': 'auth', 'mech': mech, 'shape': shape, 'channel': channel, 'gate': gate,
-            'verdict': rnd.choice(['235', '235', '535', '454']), 'target': rnd.choice(['server', 'server', 'edge']),
-            'cred': gen_cred(rnd)}
+    verdict = rnd.choice(['235', '235', '535', '454', 'raise'])
+    if verdict == 'raise' and (gate != 'none' or shape_class(mech, shape) != 'ok'):
+        verdict = '535'
+    c = {'fam': 'auth', 'mech': mech, 'shape': shape, 'channel': channel, 'gate': gate,
+         'verdict': verdict, 'target': rnd.choice(['server', 'server', 'edge']),
+         'cred': gen_cred(rnd)}
+    if rnd.random() < 0.08:
+        c['authcfg'] = 'defaults'
+    return c
 
 
 # ---------------------------------------------------------------- workload: client
@@ -811,7 +983,7 @@ def client_cases():
 
 def gen_cases(tier, seed, shard, nshards):
     rnd = random.Random('c08-grid-%d' % seed)
-    cases = list(tls_cases()) + list(client_cases()) + list(auth_grid(rnd, CRED_DRAWS[tier]))
+    cases = list(tls_cases()) + list(client_cases()) + list(relay_cases(tier)) + list(auth_grid(rnd, CRED_DRAWS[tier]))
     rr = random.Random('c08-rand-%d' % seed)
     tl = list(tls_cases())
     for i in range(NRANDOM[tier]):
@@ -847,23 +1019,59 @@ def do_auth_ok(w):
     return w.cmd(b64(b'prefix-user ' + hmac.new(b'prefix-secret', chal, hashlib.md5).hexdigest().encode()))
 
 
+PREFIX_STEPS = {'none': [], 'ehlo': [b'EHLO pre.test'], 'ehlo-mail': [b'EHLO pre.test', b'MAIL FROM:<pre@x>'],
+                'ehlo-mail-rcpt': [b'EHLO pre.test', b'MAIL FROM:<pre@x>', b'RCPT TO:<prer@x>'],
+                'ehlo-auth': [b'EHLO pre.test', 'auth'],
+                'ehlo-txn': [b'EHLO pre.test', b'MAIL FROM:<pre@x>', b'RCPT TO:<prer@x>', b'DATA',
+                             b'Subject: pre\r\n\r\npre body\r\n.'],
+                'ehlo-mail-rset': [b'EHLO pre.test', b'MAIL FROM:<pre@x>', b'RSET'],
+                'ehlo-auth-refused': [b'EHLO pre.test', b'AUTH PLAIN ' + base64.b64encode(b'\0pre\0pw')],
+                'helo': [b'HELO pre.test']}
+
+
+def prefix_want(s):
+    if s == 'auth':
+        return '235'
+    if s == b'DATA':
+        return '354'
+    if s.startswith(b'AUTH PLAIN'):
+        return '504'
+    return '250'
+
+
 def run_prefix(w, prefix):
-    """Returns None if every prefix command was accepted, else a description."""
-    steps = {'none': [], 'ehlo': [b'EHLO pre.test'], 'ehlo-mail': [b'EHLO pre.test', b'MAIL FROM:<pre@x>'],
-             'ehlo-mail-rcpt': [b'EHLO pre.test', b'MAIL FROM:<pre@x>', b'RCPT TO:<prer@x>'],
-             'ehlo-auth': [b'EHLO pre.test', 'auth']}[prefix]
-    for s in steps:
+    """Returns None if every prefix command was answered as expected, else a description."""
+    for s in PREFIX_STEPS[prefix]:
         r = do_auth_ok(w) if s == 'auth' else w.cmd(s)
-        want = '235' if s == 'auth' else '250'
-        if code(r) != want:
+        if code(r) != prefix_want(s):
             return 'prefix step %r answered %r' % (s, r)
     return None
+
+
+def cut_points(seg, verb, blob, rs):
+    """Offsets at which verb+payload is cut into separately sent segments."""
+    n, v = len(blob), len(verb)
+    if seg == 'mid-verb':
+        pts = [4]
+    elif seg == 'cr-lf':
+        pts = [v - 1]                 # between CR and LF (or just before a bare LF)
+    elif seg == 'after-eol-1':
+        pts = [v + 1]                 # the line, plus ONE byte of the payload; the rest later
+    elif seg == 'bytewise':
+        pts = list(range(1, min(n, 80)))
+    else:
+        rnd = random.Random('cut-%s-%d' % (seg, rs))
+        pts = [rnd.randrange(1, n) for _ in range(int(seg.split('-')[1]))] if n > 1 else []
+    return sorted(set(p for p in pts if 0 < p < n))
 
 
 def run_tls_case(case, R):
     mode, timing, prefix, pk, script = (case[k] for k in ('mode', 'timing', 'prefix', 'payload', 'script'))
     payload = make_payload(pk, case.get('rs', 0))
+    verb, seg = case.get('verb', VERBS[0]), case.get('seg')
     key = ('tls', prefix, pk, mode, timing, script)
+    if seg or verb != VERBS[0]:
+        key += (seg, verb)
     R.observe('tls-case', key)
     S = ServerSession(mode, AUTH_MECHS, 'server', verdicts=['235'])
     w = S.w
@@ -884,11 +1092,36 @@ def run_tls_case(case, R):
         if code(ban) != '220':
             S.finish()
             return R.inconclusive('no banner')
-        bad = run_prefix(w, prefix)
-        if bad:
-            S.finish()
-            return R.inconclusive('session prefix not accepted: ' + bad[:80])
-        w.send(b'STARTTLS\r\n' + (payload if timing == 'pipelined' else b''))
+        if timing == 'whole-session':
+            # banner read, then EVERYTHING in one segment: prefix commands, STARTTLS, payload
+            steps = PREFIX_STEPS[prefix]
+            w.send(b''.join(st + b'\r\n' for st in steps) + verb + payload)
+            for st in steps:
+                r = w.reply()
+                if code(r) != prefix_want(st):
+                    S.finish()
+                    return R.inconclusive('pipelined session prefix not accepted: %r -> %r' % (st, r))
+            R.hit('whole-session-in-one-segment')
+        else:
+            bad = run_prefix(w, prefix)
+            if bad:
+                S.finish()
+                return R.inconclusive('session prefix not accepted: ' + bad[:80])
+            blob = verb + (payload if timing == 'pipelined' else b'')
+            if seg:
+                pts = cut_points(seg, verb, blob, case.get('rs', 0))
+                pieces = [blob[a:b] for a, b in zip([0] + pts, pts + [len(blob)])]
+                R.observe('tls-segmentation', (seg, min(len(pieces), 6)))
+                for i, piece in enumerate(pieces):
+                    if not w.send(piece):
+                        break
+                    if i + 1 < len(pieces):
+                        gevent.sleep(0.0005)          # let the server greenlet take the segment
+                R.hit('starttls-line-segmented')
+            else:
+                w.send(blob)
+            if verb != VERBS[0]:
+                R.hit('starttls-line-respelled')
         r = w.reply()
         if code(r) != '220':
             # refusing STARTTLS (e.g. before EHLO, or a server that refuses it with pending input) keeps
@@ -1006,6 +1239,10 @@ def run_tls_case(case, R):
         cmp_sigs = [s for s in enc_sigs if s not in tolerated]
     else:
         cmp_sigs = enc_sigs
+        if not broken and code(first) == '250':
+            R.hit('starttls-offer-after-handshake-checked')
+            if any(ln.upper().split()[:1] == ['STARTTLS'] for ln in first[1][1:]):
+                state_viol.append((M_SRV_OFFER, 'EHLO inside TLS still lists STARTTLS: %r' % (first,)))
     if cmp_sigs != expect and starttls_again is None:
         broken.append('encrypted-callbacks: callbacks with encrypted=True were %s, the TLS commands cause %s'
                       % (cmp_sigs[:12], expect))
@@ -1014,7 +1251,7 @@ def run_tls_case(case, R):
         broken.append('injected-answered-in-tls: TLS replies mention injected text: %s' % shown[:3])
 
     if broken:
-        if mode == 'starttls' and timing == 'pipelined' and payload and buffered:
+        if mode == 'starttls' and timing in ('pipelined', 'whole-session') and payload and buffered:
             mech = M_SRV_BUF
         else:
             mech = 'unclassified/%s-%s%s/%s' % (mode, timing, '' if payload else '-no-payload',
@@ -1095,11 +1332,20 @@ def run_auth_case(case, R):
     mech, shape, channel, gate, verdict, target = (case[k] for k in ('mech', 'shape', 'channel', 'gate', 'verdict',
                                                                       'target'))
     cred = case['cred']
+    cred2 = case.get('cred2')
+    if 'XOAUTH2' in (mech, case.get('first_mech')):
+        # the XOAUTH2 wire format cannot carry ^A or a line feed inside the user name / token
+        def clean(c):
+            return dict(c, **dict((k, c[k].replace('\x01', '?').replace('\n', '?')) for k in ('cid', 'secret', 'zid')))
+        cred, cred2 = clean(cred), (clean(cred2) if cred2 else None)
     klass = shape_class(mech, shape)
+    authcfg = case.get('authcfg', 'list')
     hist = gate[len('history-'):] if gate.startswith('history-') else None
     key = ('auth', mech, shape, channel, gate, verdict, target, cred['kind'], bool(cred['zid']),
            case.get('first_mech'), case.get('second'))
-    R.observe('auth-case', key[:7])
+    if authcfg != 'list':
+        key += (authcfg,)
+    R.observe('auth-case', key[:7] + (authcfg,))
     R.observe('credential', (cred['cid'], cred['secret'], cred['zid']))
     happy = klass == 'ok' and verdict == '235' and gate == 'none' and channel != 'clear' and shape != 'lower-case'
     if not happy:
@@ -1107,11 +1353,13 @@ def run_auth_case(case, R):
     verdicts = {'none': [verdict], 'before-ehlo': [verdict], 'after-success': ['235', verdict],
                 'in-transaction': [verdict], 'in-transaction-rcpt': [verdict],
                 'retry-535': ['535', '235'], 'retry-454': ['454', '235']}.get(gate, ['235', verdict])
-    S = ServerSession('immediate' if channel == 'immediate' else 'starttls', AUTH_MECHS, target,
+    S = ServerSession({'immediate': 'immediate', 'clear-notls': 'notls'}.get(channel, 'starttls'),
+                      True if authcfg == 'defaults' else AUTH_MECHS, target,
                       verdicts=verdicts, credcheck=CredCheck(cred['cid'], cred['secret']))
     w = S.w
     R.eval()
-    encrypted = channel != 'clear'
+    encrypted = not is_clear(channel)
+    not_offered = False
 
     def abort(why):
         try:
@@ -1134,14 +1382,22 @@ def run_auth_case(case, R):
             return abort('EHLO refused')
         offered = [ln for ln in ehlo[1] if ln.upper().startswith('AUTH')]
         R.observe('auth-offer', (channel, tuple(offered)))
+        if channel == 'clear-notls':
+            R.hit('server-without-tls-context')
+            if any(ln.upper().split()[:1] == ['STARTTLS'] for ln in ehlo[1][1:]):
+                return abort('server without a TLS context offers STARTTLS')
         if mech != '-' and not any(mech in ln.upper().split() for ln in offered):
-            R.observe('mechanism-not-offered', (channel, mech))
-            try:
-                S.finish()
-            except Stall:
-                pass
+            # a mechanism this configuration does not offer: the AUTH line is as good as an unknown mechanism
+            R.observe('mechanism-not-offered', (channel, mech, authcfg))
             R.hit('mechanism-not-offered')
-            return      # "CRAM-MD5 if offered": nothing to judge
+            not_offered = True
+            klass = 'bad'
+            if gate != 'none':
+                try:
+                    S.finish()
+                except Stall:
+                    pass
+                return
     if gate in ('in-transaction', 'in-transaction-rcpt'):
         if code(w.cmd(b'MAIL FROM:<txn@x>')) != '250':
             return abort('MAIL refused')
@@ -1183,7 +1439,7 @@ def run_auth_case(case, R):
         if not ok:
             return abort('history step %s not accepted' % hist)
         if case['second'] == 'different':
-            cred_used = case['cred2']
+            cred_used = cred2
     first_line, responses = auth_script(mech, shape, cred_used)
     if gate == 'after-success':
         g1, g2 = auth_script(mech, good_shape(mech), cred)
@@ -1205,14 +1461,29 @@ def run_auth_case(case, R):
     ended_before_noop = S.ended()
     noop = w.cmd(b'NOOP') if ex['final'] is not None else None
     alive = code(noop) == '250' and not S.ended()
+    # edge target: what identity / protocol does the NEXT message's envelope carry (envelope.client)?
+    env_client, env_steps = None, None
+    if target == 'edge' and alive and (hist or gate in ('none', 'after-success', 'retry-535', 'retry-454')):
+        env_steps = [w.cmd(c) for c in (b'MAIL FROM:<env@x>', b'RCPT TO:<envr@x>', b'DATA')]
+        if [code(r) for r in env_steps] == ['250', '250', '354']:
+            n_before = len(S.queue.clients)
+            env_steps.append(w.cmd(b'Subject: env\r\n\r\nenv body\r\n.'))
+            if code(env_steps[-1]) == '250' and len(S.queue.clients) == n_before + 1:
+                env_client = S.queue.clients[-1]
+        elif code(env_steps[-1]) == '354':
+            w.cmd(b'.')
     quit_ = w.cmd(b'QUIT') if noop is not None else None
     end = S.finish()
     calls = [e for e in S.trace if e['cb'] == 'AUTH']
     wit = {'case': case, 'auth_line': first_line, 'exchanges': [e['steps'] for e in exs], 'noop': noop, 'quit': quit_,
            'auth_callbacks': calls, 'authed_before': authed_before, 'authed_after': authed_after,
            'session_ended_before_noop': ended_before_noop, 'handle_end': end, 'supplied': cred,
-           'first_identity': first_identity}
+           'first_identity': first_identity, 'envelope_client': env_client, 'envelope_steps': env_steps}
     desc = '%s/%s on %s gate=%s verdict=%s target=%s' % (mech, shape, channel, gate, verdict, target)
+    if authcfg != 'list':
+        desc += ' auth=True'
+    if not_offered:
+        desc += ' (mechanism not offered by this configuration)'
     if hist:
         desc += ' (first AUTH %s, second identity %s)' % (case['first_mech'], case['second'])
     final, first = ex['final'], ex['first']
@@ -1221,11 +1492,58 @@ def run_auth_case(case, R):
     def V(mechanism, what):
         R.violation(mechanism, desc + ': ' + what, wit)
 
+    # ---- the identity the edge hands on with the next message: the accepted one, or none
+    if env_client is not None:
+        R.hit('edge-envelope-identity-checked')
+        accepted = [e for e in calls if e.get('verdict') == '235']
+        if hist:
+            want_auth = first_identity
+        elif accepted and klass == 'ok':
+            want_auth = ident_of(mech, cred)
+        elif accepted:
+            # a 'soft' shape (e.g. an empty EXTERNAL identity): whatever the application was shown and accepted
+            shown = accepted[-1].get('creds', {})
+            want_auth = (shown.get('authcid'), shown.get('authzid'))
+        else:
+            want_auth = None
+        want_proto = 'ESMTP' + ('S' if encrypted else '') + ('A' if want_auth else '')
+        got_auth = env_client.get('auth')
+        got_auth = tuple(got_auth) if isinstance(got_auth, (list, tuple)) else got_auth
+        if got_auth != want_auth:
+            if hist:
+                m_env = M_AUTH_AFTER_OK + '/after-' + HISTORY_STEPS[hist]      # the second AUTH replaced the identity
+            elif gate == 'after-success' and len(accepted) > 1:
+                m_env = M_AUTH_AFTER_OK
+            else:
+                m_env = M_AUTH_EARLY if (got_auth and not accepted) else M_AUTH_CREDS
+            V(m_env,
+              'the envelope of the next message carries client auth %r, the application accepted %r'
+              % (got_auth, want_auth))
+        elif env_client.get('protocol') != want_proto:
+            V('unclassified/envelope-protocol-differs', 'the envelope of the next message says protocol %r on a%s '
+              'session with accepted identity %r (expected %r)'
+              % (env_client.get('protocol'), 'n encrypted' if encrypted else ' clear', want_auth, want_proto))
+
+    # ---- the application's AUTH handler raised: never a 235, never authenticated (the session may end)
+    if verdict == 'raise' and klass == 'ok' and gate == 'none' and not (not encrypted and mech in PLAINTEXT_MECHS):
+        R.hit('auth-validator-raises-checked')
+        R.observe('validator-raise-outcome', (target, code(final), str(end)[:40]))
+        if new_calls != 1:
+            return R.inconclusive('verdict raise: the application was asked %d time(s)' % new_calls)
+        if code(final) == '235' or authed_after or any(code(st[1]) == '235' for e_ in exs for st in e_['steps']):
+            V(M_AUTH_EARLY, 'the application AUTH handler raised, yet the client saw %r and the authenticated '
+              'state is %r' % (final, authed_after))
+        return
+
     # ---- survival: whatever the AUTH line was, it must not end the session (no 421, NOOP answered)
     R.hit('auth-malformed-survival-checked' if klass != 'ok' else 'auth-survival-checked')
     died = final is None or code(final) == '421' or not alive
     if died:
-        if mech == '-' and shape in ('bare', 'bare-space'):
+        if not encrypted and mech in PLAINTEXT_MECHS and new_calls:
+            R.hit('auth-clear-session-gate-checked')
+            V(M_AUTH_CLEAR, 'AUTH line answered %r on an unencrypted session, application AUTH callback invoked '
+              '%d time(s) (and raised), final reply %r' % (first, new_calls, final))
+        elif mech == '-' and shape in ('bare', 'bare-space'):
             V(M_AUTH_BARE, 'AUTH without argument answered %r, then NOOP answered %r; handle() ended with %s'
               % (final, noop, end))
         else:
@@ -1236,6 +1554,7 @@ def run_auth_case(case, R):
     # ---- plain-text mechanism on a clear session: refused outright, application not asked
     if not encrypted and mech in PLAINTEXT_MECHS:
         R.hit('auth-clear-session-gate-checked')
+        R.observe('clear-session-gate', (channel, mech, shape))
         if not is_err(first) or new_calls:
             V(M_AUTH_CLEAR, 'AUTH line answered %r on an unencrypted session, application AUTH callback invoked '
               '%d time(s), final reply %r' % (first, new_calls, final))
@@ -1306,21 +1625,28 @@ def run_auth_case(case, R):
               'exchange(s); replies %r' % (new_calls, want_calls, [e['final'] for e in exs]))
         return
     R.hit('auth-credentials-compared')
-    want_zid = (cred['zid'] or cred['cid']) if mech == 'PLAIN' else cred['cid']
+    R.observe('credentials-compared-mechanism', mech)
+    want_cid, want_zid = ident_of(mech, cred)
     for e in calls[calls_before:]:
         c = e.get('creds', {})
         if 'api_error' in c:
             return R.inconclusive('pysasl API: ' + c['api_error'][:80])
         diffs = []
-        if c.get('authcid') != cred['cid']:
-            diffs.append('authcid %r != supplied %r' % (c.get('authcid'), cred['cid']))
+        if c.get('authcid') != want_cid:
+            diffs.append('authcid %r != supplied %r' % (c.get('authcid'), want_cid))
         if c.get('authzid') != want_zid:
             diffs.append('authzid %r != supplied %r' % (c.get('authzid'), want_zid))
-        if not c.get('verify_secret_only'):
+        if mech in ('XOAUTH2', 'EXTERNAL'):
+            want_token = cred['secret'] if mech == 'XOAUTH2' else None
+            if not c.get('external'):
+                diffs.append('credentials object %s does not ask for external verification' % c.get('type'))
+            elif c.get('token') != want_token:
+                diffs.append('bearer token %r != supplied %r' % (c.get('token'), want_token))
+        elif not c.get('verify_secret_only'):
             diffs.append('verify(ClearIdentity(authcid, supplied secret, noprep)) is False')
         if c.get('verify_wrong_secret'):
             diffs.append('verify() accepts a different secret')
-        if not diffs and not c.get('verify_supplied'):
+        if not diffs and not c.get('external') and not c.get('verify_supplied'):
             diffs.append('verify(ClearIdentity(supplied authcid, supplied secret, noprep)) is False')
         if diffs:
             V(M_AUTH_CREDS, '; '.join(diffs)[:300])
@@ -1337,8 +1663,8 @@ def run_auth_case(case, R):
         if bool(authed_after) != (verdict == '235'):
             V(M_AUTH_EARLY if authed_after else 'unclassified/not-authenticated-after-235',
               'authenticated state %r after the application answered %s' % (authed_after, verdict))
-        if target == 'edge' and verdict == '235' and authed_after != (cred['cid'], want_zid):
-            V(M_AUTH_CREDS, 'session.auth %r != supplied %r' % (authed_after, (cred['cid'], want_zid)))
+        if target == 'edge' and verdict == '235' and authed_after != (want_cid, want_zid):
+            V(M_AUTH_CREDS, 'session.auth %r != supplied %r' % (authed_after, (want_cid, want_zid)))
     else:
         R.hit('auth-retry-checked')
         if code(final) != verdicts_first(gate) or code(ex2['final']) != '235' or not authed_after:
@@ -1350,6 +1676,15 @@ def run_auth_case(case, R):
 
 def verdicts_first(gate):
     return gate[-3:]
+
+
+def ident_of(mech, cred):
+    """(authcid, authzid) the application must be shown for the supplied credentials."""
+    if mech in ('XOAUTH2', 'EXTERNAL'):
+        return ('', cred['cid'])            # pysasl ExternalCredentials: the user / authzid only
+    if mech == 'PLAIN':
+        return (cred['cid'], cred['zid'] or cred['cid'])
+    return (cred['cid'], cred['cid'])
 
 
 # ---------------------------------------------------------------- run: client
@@ -1486,6 +1821,342 @@ def run_client_case(case, R):
                        '; client extensions now %s' % ext if ext_leak else ''), wit)
     elif inj:
         R.sample({'case': case, 'client_replies': got})
+    # the extension set after the EHLO inside TLS is what that reply listed (8BITMIME), nothing from clear text
+    if ext is not None and not ext_leak and after[:1] == want[:1]:
+        R.hit('client-post-tls-extensions-compared')
+        if ext != ['8BITMIME']:
+            R.violation(M_CLI_EXT, 'payload=%s %s: after STARTTLS and a new EHLO answered "250-tls.inside / 250 8BITMIME" '
+                        'inside TLS the client\'s extension set is %s (the clear-text EHLO had offered STARTTLS)'
+                        % (name, timing, ext), wit)
+
+
+# ---------------------------------------------------------------- run: relay client (hostile server)
+
+RELAY_CLEAR_EXT = [b'PIPELINING', b'8BITMIME', b'SIZE 1000000', b'AUTH PLAIN LOGIN', b'STARTTLS']
+RELAY_TLS_EXT = {'same': [b'PIPELINING', b'8BITMIME', b'AUTH PLAIN LOGIN'],
+                 'other': [b'8BITMIME', b'AUTH CRAM-MD5'],
+                 'login-first': [b'PIPELINING', b'AUTH LOGIN PLAIN CRAM-MD5'],
+                 'no-auth': [b'8BITMIME'],
+                 'helo': None}            # EHLO answered 500 inside TLS, HELO answered 250 (no extensions at all)
+RELAY_CHAL = b'<20260925.1234@harness.tls>'
+
+
+def ehlo_reply(host, exts):
+    lines = [host] + list(exts)
+    return b''.join(b'250' + (b' ' if i == len(lines) - 1 else b'-') + ln + b'\r\n' for i, ln in enumerate(lines))
+
+
+def relay_cases(tier='quick'):
+    n = 0
+    for kind in ('smtp', 'lmtp'):
+        for variant in sorted(RELAY_TLS_EXT):
+            if kind == 'lmtp' and variant == 'helo':
+                continue              # LMTP has no HELO fallback
+            for creds in (False, True):
+                for name in sorted(CLIENT_PAYLOADS):
+                    for timing in ('same-segment', 'next-segment', 'during-handshake'):
+                        if name == 'none' and timing != 'same-segment':
+                            continue
+                        n += 1
+                        if kind == 'lmtp' and n % 3 and tier == 'quick':
+                            continue
+                        yield {'fam': 'relay', 'kind': kind, 'variant': variant, 'creds': creds, 'payload': name,
+                               'timing': timing, 'mech': (None, None, 'LOGIN', 'PLAIN')[n % 4] if creds else None,
+                               'zid': n % 5 == 0}
+    # tls_immediately=True: the handshake comes first; clear-text bytes sent before it
+    for variant in ('same', 'no-auth'):
+        for creds in (False, True):
+            for name in sorted(CLIENT_PAYLOADS):
+                yield {'fam': 'relay', 'kind': 'smtp', 'variant': variant, 'creds': creds, 'payload': name,
+                       'timing': 'before-handshake', 'mech': None, 'zid': False, 'immediate': True}
+
+
+def run_relay_case(case, R):
+    kind, variant, name, timing = case['kind'], case['variant'], case['payload'], case['timing']
+    inj = CLIENT_PAYLOADS[name]
+    rnd = random.Random('relay-cred-%d' % case.get('rs', 0))
+    forced = case.get('mech')
+    # pysasl's CRAM-MD5 client runs SASLprep over the credentials (may refuse / normalise them): ASCII there
+    ckind = 'ascii' if variant == 'other' else rnd.choice(['ascii', 'bmp', 'astral', 'combining', 'space', 'mixed',
+                                                            'case'])
+    cred = gen_cred(rnd, ckind, zid=bool(case.get('zid'))) if case['creds'] else None
+    if cred and variant == 'other':
+        cred['secret'] = gen_text(rnd, 'ascii', 1)
+    immediate = bool(case.get('immediate'))
+    key = ('relay', kind, variant, bool(cred), forced, name, timing)
+    R.observe('relay-case', key)
+    if inj or variant != 'same':
+        R.nontrivial(key)
+    tls_ext = RELAY_TLS_EXT[variant]
+    hello = b'LHLO' if kind == 'lmtp' else b'EHLO'
+    srv = {'seen': [], 'err': None, 'tls': False, 'auth': [], 'conns': 0}
+
+    def serve(w):
+        def readline():
+            while b'\n' not in w.buf:
+                if not w._fill():
+                    return None
+            line, w.buf = w.buf.split(b'\n', 1)
+            return line.rstrip(b'\r')
+
+        def chan():
+            return 'tls' if w.tls else 'clear'
+
+        def auth(ln):
+            parts = ln.split(b' ')
+            mname = parts[1].upper() if len(parts) > 1 else b''
+            rec = {'chan': chan(), 'mech': mname.decode('latin-1'), 'line': ln}
+            srv['auth'].append(rec)
+            arg = parts[2] if len(parts) > 2 else None
+            try:
+                if mname == b'PLAIN':
+                    if arg is None:
+                        w.send(b'334 \r\n')
+                        arg = readline()
+                    zid, cid, sec = base64.b64decode(arg).split(b'\0')
+                    rec.update(cid=cid.decode('utf-8'), secret=sec.decode('utf-8'), zid=zid.decode('utf-8'))
+                elif mname == b'LOGIN':
+                    if arg is None:
+                        w.send(b'334 VXNlcm5hbWU6\r\n')
+                        arg = readline()
+                    w.send(b'334 UGFzc3dvcmQ6\r\n')
+                    sec = readline()
+                    rec.update(cid=base64.b64decode(arg).decode('utf-8'), secret=base64.b64decode(sec).decode('utf-8'))
+                elif mname == b'CRAM-MD5':
+                    w.send(b'334 ' + b64(RELAY_CHAL) + b'\r\n')
+                    resp = base64.b64decode(readline())
+                    cid, _, digest = resp.rpartition(b' ')
+                    rec.update(cid=cid.decode('utf-8'), digest=digest.decode('latin-1'))
+                else:
+                    w.send(b'504 5.5.4 tls-unknown-mechanism\r\n')
+                    return
+            except Exception as e:
+                rec['undecodable'] = repr(e)[:100]
+            w.send(b'235 2.7.0 tls-auth-ok\r\n')
+
+        try:
+            if immediate:
+                if inj:
+                    w.send(inj)
+                if not w.handshake(server_side=True):
+                    srv['err'] = 'handshake-failed'
+                    return
+                srv['tls'] = True
+            w.send(b'220 harness ESMTP\r\n')
+            while True:
+                ln = readline()
+                if ln is None:
+                    return
+                srv['seen'].append([chan(), ln])
+                verb = ln.split(b' ')[0].upper()
+                if verb == b'AUTH':
+                    auth(ln)
+                elif verb == b'DATA':
+                    w.send(b'354 %s-go-ahead\r\n' % chan().encode())
+                    while True:
+                        body = readline()
+                        if body is None:
+                            return
+                        if body == b'.':
+                            break
+                    srv['seen'].append([chan(), b'<EOD>'])
+                    w.send(b'250 2.0.0 %s-queued\r\n' % chan().encode())
+                elif verb == b'QUIT':
+                    w.send(b'221 2.0.0 %s-bye\r\n' % chan().encode())
+                    return
+                elif not w.tls:
+                    if verb == hello:
+                        w.send(ehlo_reply(b'harness.clear', RELAY_CLEAR_EXT))
+                    elif verb == b'STARTTLS':
+                        if timing == 'same-segment':
+                            w.send(b'220 2.0.0 ready\r\n' + inj)
+                        elif timing == 'during-handshake':
+                            w.send(b'220 2.0.0 ready\r\n')
+                            gsocket.wait_read(w.sock.fileno(), timeout=WD)
+                            w.send(inj)
+                        else:
+                            w.send(b'220 2.0.0 ready\r\n')
+                            w.send(inj)
+                        if not w.handshake(server_side=True):
+                            srv['err'] = 'handshake-failed'
+                            return
+                        srv['tls'] = True
+                    else:
+                        w.send(b'250 2.0.0 clear-ok\r\n')
+                else:
+                    if verb == hello:
+                        w.send(b'500 5.5.2 tls-no-ehlo\r\n' if tls_ext is None else ehlo_reply(b'harness.tls', tls_ext))
+                    elif verb == b'HELO':
+                        w.send(b'250 harness.tls\r\n')
+                    else:
+                        w.send(b'250 2.0.0 tls-%s-ok\r\n' % verb.lower()[:8])
+        except Stall as e:
+            srv['err'] = 'stall: %s' % e
+        finally:
+            if w.tls:
+                t = gevent.Timeout(1.0)
+                t.start()
+                try:
+                    w.sock.unwrap()
+                except BaseException:
+                    pass
+                finally:
+                    t.close()
+            w.close()
+
+    servers = []
+
+    def creator(address):
+        a, b = gsocket.socketpair()
+        srv['conns'] += 1
+        servers.append(gevent.spawn(serve, Wire(b)))
+        return a
+
+    kw = {'socket_creator': creator, 'ehlo_as': 'relay.test', 'context': cctx(), 'connect_timeout': WD,
+          'command_timeout': WD, 'data_timeout': WD}
+    if immediate:
+        kw['tls_immediately'] = True
+    if cred:
+        kw['credentials'] = (cred['cid'], cred['secret']) + ((cred['zid'],) if cred['zid'] else ())
+        if forced:
+            kw['auth_mechanism'] = forced.encode('ascii')
+    relay = (StaticLmtpRelay if kind == 'lmtp' else StaticSmtpRelay)('server.test', 25, pool_size=1, **kw)
+    env = Envelope('sender@x', ['rcpt@x'])
+    env.parse(b'Subject: relay\r\n\r\nrelay body\r\n')
+    R.eval()
+    outcome, reported = None, []
+    t = gevent.Timeout(WD * 3)
+    t.start()
+    try:
+        res = relay.attempt(env, 0)
+        outcome = 'delivered'
+        for rcpt, rep in sorted((res or {}).items()):
+            if isinstance(rep, RelayError):
+                outcome = 'recipient-failed'
+                rep = rep.reply
+            reported.append([rcpt, getattr(rep, 'code', None), getattr(rep, 'message', None)])
+    except RelayError as e:
+        outcome = 'failed'
+        reported.append(['*', e.reply.code, e.reply.message])
+    except gevent.Timeout as e:
+        if e is not t:
+            raise
+        outcome = 'stalled'
+    except Exception as e:
+        outcome = 'exception'
+        reported.append(['*', type(e).__name__, str(e)[:120]])
+    finally:
+        t.close()
+        try:
+            relay.kill()
+        except Exception:
+            pass
+        gevent.joinall(servers, timeout=WD)
+        for g in servers:
+            if not g.ready():
+                g.kill(block=False)
+    if outcome == 'stalled':
+        return R.inconclusive('relay case: attempt() did not return within %ss' % (WD * 3))
+    in_tls = [ln for ch, ln in srv['seen'] if ch == 'tls']
+    verbs = [ln.split(b' ')[0].upper().decode('latin-1') for ln in in_tls]
+    after_starttls_clear = []
+    seen_st = False
+    for ch, ln in srv['seen']:
+        if ch == 'clear' and seen_st:
+            after_starttls_clear.append(ln[:60])
+        if ln.upper().startswith(b'STARTTLS'):
+            seen_st = True
+    wit = {'case': case, 'injected': inj, 'outcome': outcome, 'reported': reported, 'server_saw': srv['seen'][:40],
+           'server_error': srv['err'], 'auth_exchanges': srv['auth'], 'credentials': cred,
+           'tls_extensions_offered': tls_ext, 'clear_extensions_offered': RELAY_CLEAR_EXT}
+    desc = '%s relay, EHLO inside TLS %s, payload=%s %s%s' % (kind, variant, name, timing,
+                                                              ', credentials configured' if cred else '')
+    if not srv['tls']:
+        R.observe('relay-outcome', (kind, name, timing, 'no-tls-session', outcome))
+        if not inj:
+            return R.inconclusive('relay baseline: no TLS session (%s / %s)' % (outcome, srv['err']))
+        R.hit('relay-handshake-refused-plaintext')
+        return
+    R.observe('relay-outcome', (kind, variant, bool(cred), outcome, immediate))
+    R.hit('relay-tls-session-compared')
+    if immediate:
+        R.hit('relay-immediate-tls-session-compared')
+    offered = set(x.split(b' ')[0].decode() for x in (tls_ext or []))
+    tls_mechs = []
+    for x in (tls_ext or []):
+        if x.startswith(b'AUTH '):
+            tls_mechs = x.decode().split()[1:]
+    will_auth = bool(cred) and bool(tls_mechs) and (not forced or forced in tls_mechs)
+    expect_delivery = (not cred) or will_auth
+    problems = []
+    # (1) the boundary: the first thing inside TLS is a fresh EHLO/LHLO, the outcome is the one answered inside TLS
+    no_hello = verbs[:1] != [hello.decode()]
+    if no_hello:
+        R.violation(M_CLI_NOEHLO, desc + ': the first command inside TLS was %r, not a new %s (what the clear-text %s '
+                    'reply said is still relied on)' % (in_tls[:1], hello.decode(), hello.decode()), wit)
+    leak = [r for r in reported if 'inject' in str(r[2]).lower() or 'clear-' in str(r[2]).lower()]
+    if leak:
+        problems.append('the relay reports %r, which was never sent inside TLS' % (leak[:2],))
+    if expect_delivery:
+        if outcome != 'delivered' or [r[1:] for r in reported] != [['250', '2.0.0 tls-queued']]:
+            problems.append('inside TLS the message was answered 250 2.0.0 tls-queued, the relay reports %s %r'
+                            % (outcome, reported[:2]))
+    if problems and not no_hello:
+        if not inj:
+            # without injected bytes this is either the stale-extension root cause below or a harness problem
+            if not (variant in ('helo', 'no-auth', 'other') and srv['auth']):
+                R.violation('unclassified/relay/tls-session-differs-without-injection',
+                            desc + ': ' + '; '.join(problems)[:400], wit)
+        else:
+            R.violation(M_CLI_BUF, desc + ': ' + '; '.join(problems)[:400], wit)
+    # (2) nothing learnt from the clear-text EHLO reply is used after the handshake
+    R.hit('relay-post-tls-extension-use-checked')
+    stale = []
+    for rec in srv['auth']:
+        if rec['chan'] != 'tls':
+            continue
+        if rec['mech'] not in tls_mechs:
+            stale.append('AUTH %s sent inside TLS; mechanisms offered inside TLS: %s (in clear text: PLAIN LOGIN)'
+                         % (rec['mech'], tls_mechs or 'none'))
+    for ln in in_tls:
+        if ln.upper().startswith(b'MAIL '):
+            for pname in (b'SIZE', b'AUTH'):
+                if (b' ' + pname + b'=') in ln.upper() and pname.decode() not in offered:
+                    stale.append('%r sent inside TLS although %s was only offered in clear text' % (ln[:80], pname.decode()))
+    if stale:
+        R.violation(M_CLI_EXT, desc + ': ' + '; '.join(stale)[:400], wit)
+    # (3) the AUTH exchange carries exactly the configured credentials
+    if cred and will_auth:
+        R.hit('relay-auth-credentials-compared')
+        recs = [r_ for r_ in srv['auth'] if r_['chan'] == 'tls']
+        if len(recs) != 1:
+            if not problems:
+                R.violation('unclassified/relay/auth-exchange-count', desc + ': %d AUTH exchanges inside TLS' % len(recs),
+                            wit)
+        else:
+            rec = recs[0]
+            R.observe('relay-auth-mechanism', (variant, forced, rec['mech']))
+            diffs = []
+            if forced and rec['mech'] != forced:
+                diffs.append('mechanism %s used, %s configured' % (rec['mech'], forced))
+            if 'undecodable' in rec:
+                diffs.append('exchange not decodable: %s' % rec['undecodable'])
+            elif rec.get('cid') != cred['cid']:
+                diffs.append('authcid %r != configured %r' % (rec.get('cid'), cred['cid']))
+            elif 'secret' in rec and rec['secret'] != cred['secret']:
+                diffs.append('secret %r != configured %r' % (rec['secret'], cred['secret']))
+            elif 'digest' in rec and rec['digest'] != hmac.new(cred['secret'].encode('utf-8'), RELAY_CHAL,
+                                                               hashlib.md5).hexdigest():
+                diffs.append('CRAM-MD5 digest does not match the configured secret')
+            elif 'zid' in rec and rec['zid'] not in ((cred['zid'],) if cred['zid'] else ('', cred['cid'])):
+                diffs.append('authzid %r != configured %r' % (rec['zid'], cred['zid']))
+            if diffs:
+                R.violation(M_CLI_CREDS, desc + ': ' + '; '.join(diffs)[:300], wit)
+    # (4) credentials never go out in clear text after a STARTTLS that the server accepted
+    if any(ln.upper().startswith(b'AUTH') for ln in after_starttls_clear):
+        R.violation('unclassified/relay/auth-in-clear-after-starttls', desc + ': %r' % after_starttls_clear[:3], wit)
+    if not problems and not stale and inj and case.get('rs', 0) % 7 == 0:
+        R.sample({'case': case, 'outcome': outcome, 'reported': reported, 'commands_inside_tls': in_tls[:8]})
 
 
 # ---------------------------------------------------------------- dispatch
@@ -1496,6 +2167,8 @@ def run_case(case, R):
             run_tls_case(case, R)
         elif case['fam'] == 'auth':
             run_auth_case(case, R)
+        elif case['fam'] == 'relay':
+            run_relay_case(case, R)
         else:
             run_client_case(case, R)
     except Stall as e:
